@@ -5,12 +5,14 @@
    by-name map, the per-layout by-index vector, the per-layout snapshot cache, the frame stack --
    as implemented after the repairs c94595b (a failed run is dropped from the frame stack),
    a3cbd29 (Return copies the globals to the by-name map when it leaves the run loop) and bae557e
-   (cached callables push a frame that carries its mapping id).
+   (cached callables push a frame that carries its mapping id) and c90f0cb (calls and returns decide
+   the layout switch against the layout that is actually loaded; a function with layout id 0 runs
+   on whatever is loaded).
    What the tie (hx_repl) carries: that whole sessions print what a reference interpreter of
    the session prints, and that the model's operations are what the VM does.
 
    [ops_ok] are the entry conditions the interpreter relies on (a layout id always names the same
-   layout; a sync is performed for the layout of the running frame, which is the current one).
+   layout; the names of the layout that is loaded are pairwise distinct).
    They are decidable ([ops_okb]) and checked on concrete sessions by computation. *)
 From Aelys Require Import Base.Tactics Model.GlobalsSync Proofs.GlobalsSyncProofs.
 Local Open Scope N_scope.
@@ -98,3 +100,15 @@ Example entry_conditions_session_observations :
   r_obs (run_ops ginit (firstn 17 good_ops) [] [] false) = [12; 12]%Z /\
   glookup (gmap (final ginit good_ops)) 1 = Some 12%Z /\ bound (final ginit (firstn 17 good_ops)) 1.
 Proof. exact good_ops_obs. Qed.
+
+(* a function without globals of its own (layout id 0) in the middle of a call chain runs on the
+   layout that is loaded and does not disturb the switch between its caller's and its callee's
+   layouts (c90f0cb; corpus/C14/callback_through_function_without_globals.txt) *)
+Example views_coherent_through_function_without_globals :
+  r_obs (run_ops ginit (firstn 31 good_ops) [] [] false) = [12; 12; 22; 22]%Z /\
+  glookup (gmap (final ginit (firstn 31 good_ops))) 1 = Some 12%Z /\
+  gnth (gidx (final ginit (firstn 31 good_ops))) 1 = Some 12%Z /\
+  cur (final ginit (firstn 31 good_ops)) = 4 /\
+  forallb (balanced 0) [firstn 7 good_ops; firstn 10 (skipn 7 good_ops); firstn 14 (skipn 17 good_ops)] = true.
+Proof. exact callback_through_function_without_globals. Qed.
+
